@@ -109,11 +109,13 @@ func c09Gen(rt *rapid.T, withToken bool) c09Stmt {
 				s.Comment = "before-table"
 			}
 		}
+		// comment markers inside a string literal are not comments
+		strlit := rapid.SampledFrom([]string{"", "", "", " -- not a comment", " /* not a comment */", "//", " /* ", "''--"}).Draw(rt, "strlit")
 		qname := name
 		if s.Comment == "in-qualified-name" {
 			qname = s.Qualifier + "." + cm("in-qualified-name") + s.Table
 		}
-		s.Text = cm("leading") + kw("SELECT") + ws("w1") + cm("selectors") + sel + ws("w2") + kw("FROM") + ws("w3") + cm("before-table") + qname + ws("w4") + kw("WHERE") + " key = '" + tok + "'" + c09Tails[rapid.IntRange(0, len(c09Tails)-1).Draw(rt, "tail")]
+		s.Text = cm("leading") + kw("SELECT") + ws("w1") + cm("selectors") + sel + ws("w2") + kw("FROM") + ws("w3") + cm("before-table") + qname + ws("w4") + kw("WHERE") + " key = '" + tok + strlit + "'" + c09Tails[rapid.IntRange(0, len(c09Tails)-1).Draw(rt, "tail")]
 		if s.Comment == "trailing" {
 			s.Text += " " + rapid.SampledFrom([]string{"/* c */", "-- c", "// c"}).Draw(rt, "trailingcomment")
 		}
